@@ -106,7 +106,7 @@ def register(OPS, drv):
 
     def op_faults(job):
         """Requests served while opening ONE path fails (after isfile()/stat succeeded):
-        cases {fault: eacces|eio|emfile|vanish, path: selector, requests, nth (default 1), call: open|listdir}.
+        cases {fault: eacces|eio|emfile|enoent|vanish|none, path: selector, requests, nth (default 1), call: open|listdir}.
         Within each request the first nth-1 calls on the path succeed; the nth and every later one fails
         (vanish: the file is really removed at the nth call, and put back after the request)."""
         import errno
